@@ -128,7 +128,8 @@ def run(
 
 
 def sany(module: Path) -> None:
-    cmd = ["java", f"-DTLA-Library={LIBPATH}", "-cp", f"{JAR}:{DEPS}", "tla2sany.SANY", str(module)]
+    module = Path(module).resolve()
+    cmd = ["java", f"-DTLA-Library={LIBPATH}", "-cp", f"{JAR}:{DEPS}", "tla2sany.SANY", module.name]
     p = subprocess.run(cmd, cwd=str(module.parent), capture_output=True, text=True, timeout=120)
     if p.returncode != 0 or "Semantic errors" in p.stdout or "***Parse Error***" in p.stdout or "Fatal" in p.stdout:
         raise TLCFailure(f"SANY rejects {module}:\n{p.stdout[-3000:]}{p.stderr[-1000:]}")
